@@ -25,8 +25,10 @@ LEVEL_TEXT = ('static analysis: (D1) each filter body is interpreted, through it
               'ampdel / cn interpreted end to end through the real squash_by_groups on literal 6-row tables whose index labels are a permutation:'
               ' each merges exactly the runs of its own level (a level vector re-wrapped on a fresh 0..n-1 index is aligned by label onto the '
               'wrong rows). D2 includes neighbours that both lack allelic copy numbers (cn1 = cn2 missing): they share their level; a missing '
-              'level next to a known one is left unspecified. Decides the run-length grouping on that scope only (longer tables follow the same '
-              'cumulative-key construction; no induction is attempted).')
+              'level next to a known one is left unspecified. (CLI) the `call` command line(s), through a model of argparse built from the '
+              'declarations in commands.py and the real _cmd_ body interpreted with readers, library step and writers stubbed: every --filter, in'
+              ' the order given, reaches do_call. Decides the run-length grouping on that scope only (longer tables follow the same cumulative-'
+              'key construction; no induction is attempted).')
 TECHNIQUE = ('abstract interpretation of the filter bodies over order positions; bounded exhaustive interpretation of the grouping on literal '
              'tables; closed forms on symbolic groups; dominance; index-label alignment hazard on literal tables')
 
@@ -219,8 +221,10 @@ def d2(chk, prog):
         want = want_groups(chroms, lv, c1, arms)
         if got != want:
             bad.append(dict(chromosomes=chroms, levels=lv, cn1=c1, arms=arms, got=got, want=want))
-    if undecided:
+    if undecided and not bad:
         raise AnalysisError(f"C14-D2: {len(undecided)} tables undecided, e.g. {undecided[0][:300]}")
+    if undecided:
+        chk.note(f"C14-D2: {len(undecided)} tables undecided beside {len(bad)} definite counterexamples, e.g. {undecided[0][:200]}")
     tb.cell(not bad, dict(tables=len(configs), counterexamples=bad[:4], n_counterexamples=len(bad)))
     tb.done("squash_by_groups does not merge exactly the runs of consecutive like rows within a chromosome (arm)")
 
@@ -382,6 +386,40 @@ def d5(chk, prog):
     tb.done("a filter merges rows that are not a run of its own level (e.g. levels re-attached by position while the table keeps other index labels)")
 
 
+def d6(chk, prog):
+    chk.clause("D6", "do_call applies the filters asked for: ci / sem first (before calling), the others after calling in the order given, each exactly once")
+    fi = prog.fn("cnvlib.call.do_call")
+    tb = Table(chk, "level-index", "do_call x every ordered list of distinct filters with at most one of ci / sem: the order in which the filter functions run", fi.loc(), fi.qn + "::filter order")
+    names = ("ampdel", "cn", "ci", "sem")
+    lists = [()]
+    for k in (1, 2, 3):
+        lists += [p for p in itertools.permutations(names, k) if not ("ci" in p and "sem" in p)]
+    for filters, method in itertools.product(lists, ("threshold", "clonal")):
+        W.reset()
+        model = Model()
+
+        def stage(tag):
+            def f(it, arr, tag=tag):
+                return GA(arr.cls, arr.data.copy(), arr.data.n, dict(arr.meta, stages=arr.meta.get("stages", ()) + ((tag, "cn" in arr.data.cols),)))
+            return f
+        for nm in names:
+            model.prims[f"{SF}.{nm}"] = stage(nm)
+        for nm in ("absolute_threshold", "absolute_clonal", "absolute_pure"):
+            model.prims[f"cnvlib.call.{nm}"] = lambda it, cn, *a, **k: Vec([Term.sym(f"c{i}", 0, INF, True) for i in range(cn.data.n)])
+        rows = [dict(chromosome="chr1", start=Term.sym(f"s{i}"), end=Term.sym(f"e{i}"), gene="g", log2=Term.sym(f"v{i}"), probes=5, weight=1) for i in range(2)]
+        g = make_ga("CopyNumArray", rows, {"sample_id": "S"}, index="any", labels=[7, 3])
+        given = list(filters)
+        it = Interp(prog, model)
+        out = tb.guard(lambda: it.run(fi.qn, [g, None, method, 2, None, False, False, None, given]), f"filters={list(filters)} method={method}")
+        if out is None:
+            continue
+        early = [f for f in filters if f in ("ci", "sem")]
+        want = [(f, False) for f in early] + [(f, True) for f in filters if f not in early]
+        got = list(out.meta.get("stages", ()))
+        tb.cell(got == want and given == list(filters), dict(filters=list(filters), method=method, ran=got, want=want, callers_list_after=given))
+    tb.done("the filters do not run as asked: ci / sem before the copy numbers are called, the others afterwards in the order given (ampdel before cn drops the neutral pieces first)")
+
+
 def run(chk):
     prog = chk.prog
     chk.trust("Python grammar via ast", "pandas aligns Series arithmetic and DataFrame.assign by index label; boolean-mask stores on ndarrays (absmodel.py)",
@@ -391,6 +429,7 @@ def run(chk):
     d3(chk, prog)
     d4(chk, prog)
     d5(chk, prog)
+    d6(chk, prog)
     chk.clause("CLI", "the `call` command line: every --filter, in the order given, reaches do_call")
     from .. import cliglue
     cliglue.check_call(chk, prog)
@@ -412,7 +451,8 @@ MUTANTS = [
     dict(name="seeded C14f: weighted summaries only when every member has weight", file=_F, old='    if region_weight > 0:\n        out["log2"] = np.average', new='    if (cnarr["weight"] > 0).all():\n        out["log2"] = np.average'),
     dict(name="seeded C14e: ci hands squash_by_groups a bare array, re-wrapped without the index", edits=[(_F, '    levels[segarr["ci_hi"].values < 0] = -1\n    return squash_by_groups(segarr, pd.Series(levels, index=segarr.data.index))', '    levels[segarr["ci_hi"].values < 0] = -1\n    return squash_by_groups(segarr, levels)'), (_F, "    # Enumerate runs of identical values\n", "    if not isinstance(levels, pd.Series):\n        levels = pd.Series(levels)\n")]),
     dict(name="twin: bare level arrays wrapped on the table's own index inside squash_by_groups", expect="silent", edits=[(_F, '    levels[segarr["ci_hi"].values < 0] = -1\n    return squash_by_groups(segarr, pd.Series(levels, index=segarr.data.index))', '    levels[segarr["ci_hi"].values < 0] = -1\n    return squash_by_groups(segarr, levels)'), (_F, "    # Enumerate runs of identical values\n", "    if not isinstance(levels, pd.Series):\n        levels = pd.Series(levels, index=cnarr.data.index)\n")]),
-    dict(name="twin: run index by comparing with the shifted levels", expect="silent", file=_F, old="    return levels.diff().fillna(0).abs().cumsum().astype(int)", new="    changed = levels != levels.shift()\n    changed.iloc[0] = False\n    return changed.cumsum().astype(int)"),
+    # (once listed as a twin; it is not: NaN != NaN, so neighbours that both lack allelic copy numbers never form a run -- seeded C14i is this change)
+    dict(name="run index by comparing with the shifted levels (missing levels never form a run)", file=_F, old="    return levels.diff().fillna(0).abs().cumsum().astype(int)", new="    changed = levels != levels.shift()\n    changed.iloc[0] = False\n    return changed.cumsum().astype(int)"),
     dict(name="chromosome ordinal dropped", file=_F, old="        change_levels += chrom_col\n", new=""),
     dict(name="allele-specific key dropped", file=_F, old='        groupkey.extend(["_g1", "_g2"])\n', new=""),
     dict(name="enumerate_changes without abs", file=_F, old="    return levels.diff().fillna(0).abs().cumsum().astype(int)", new="    return levels.diff().fillna(0).cumsum().astype(int)"),
